@@ -315,6 +315,7 @@ type rw struct {
 	shadows  map[string]string
 	errs     []string
 	needVrt  bool
+	keepOlareg bool
 	fn       string // current function name
 	siteN    int
 	tmpN     int
@@ -370,6 +371,11 @@ func (r *rw) rewriteFile() {
 	}
 	if r.needVrt {
 		addImport(r.file, "vrt", verifPrefix+"vrt")
+	}
+	if r.keepOlareg {
+		// the import of the root package stays in use
+		r.file.Decls = append(r.file.Decls, &ast.GenDecl{Tok: token.VAR, Specs: []ast.Spec{&ast.ValueSpec{
+			Names: []*ast.Ident{ast.NewIdent("_")}, Values: []ast.Expr{&ast.SelectorExpr{X: ast.NewIdent("olareg"), Sel: ast.NewIdent("New")}}}}})
 	}
 }
 
@@ -616,6 +622,16 @@ func (r *rw) expr(e ast.Expr, h *hooks) ast.Expr {
 			n.Fun = visit(n.Fun)
 			for i := range n.Args {
 				n.Args[i] = visit(n.Args[i])
+			}
+			// cmd/olareg: the server built by the real flag parsing is handed to the in-process harness
+			if r.pkg == "main" {
+				if se, ok := n.Fun.(*ast.SelectorExpr); ok && se.Sel.Name == "New" {
+					if x, ok := se.X.(*ast.Ident); ok && x.Name == "olareg" {
+						n.Fun = ast.NewIdent("verifNew")
+						r.keepOlareg = true
+						return n
+					}
+				}
 			}
 			if id, ok := n.Fun.(*ast.Ident); ok && id.Name == "close" && len(n.Args) == 1 {
 				if _, isB := r.info.Uses[id].(*types.Builtin); isB {
